@@ -356,6 +356,11 @@ class FormulaManager(object):
                 is_python_rational(value)):
             raise PysmtTypeError("Invalid type in constant. The type was:" + \
                                  str(type(value)))
+        if isinstance(value, tuple):
+            # E.g., (1.0, 2.0) is equal to a cached (1, 2), but it is
+            # not a valid pair: this raises as it does when the
+            # constant is not cached
+            Fraction(value[0], value[1])
         if value in self.real_constants:
             return self.real_constants[value]
 
